@@ -1,5 +1,5 @@
 (* C10 -- lemmas about float <-> int conversion, comparison, range membership of floats *)
-From Coq Require Import ZArith Bool List Lia.
+From Coq Require Import ZArith Bool List Lia Zpower.
 From Coq Require Import ZifyBool.
 From Coq Require Floats.SpecFloat.
 From SV Require Import Common.GoInt C10.Model C10.Spec C10.ProofsInt C10.ProofsRange.
@@ -217,3 +217,108 @@ Section WithInt.
         * destruct (1024 <? bitlen v); reflexivity.
   Qed.
 End WithInt.
+
+(* ---------- int -> float is exact for every integer of fewer than 54 bits:
+   SpecFloat's round-to-nearest-even conversion does not round at all there *)
+Lemma digits2_pos_lower p : 2 ^ (Zpos (digits2_pos p) - 1) <= Zpos p.
+Proof.
+  induction p as [p IH|p IH|]; cbn [digits2_pos].
+  - rewrite Pos2Z.inj_succ. replace (Z.succ (Zpos (digits2_pos p)) - 1) with (Z.succ (Zpos (digits2_pos p) - 1)) by lia.
+    rewrite Z.pow_succ_r by lia. lia.
+  - rewrite Pos2Z.inj_succ. replace (Z.succ (Zpos (digits2_pos p)) - 1) with (Z.succ (Zpos (digits2_pos p) - 1)) by lia.
+    rewrite Z.pow_succ_r by lia. lia.
+  - cbn. lia.
+Qed.
+
+Lemma digits2_le_53 p : Zpos p < 2 ^ 53 -> Zpos (digits2_pos p) <= 53.
+Proof.
+  intros H. pose proof (digits2_pos_lower p) as L.
+  destruct (Z_le_gt_dec (Zpos (digits2_pos p)) 53) as [|G]; [assumption|exfalso].
+  assert (2 ^ 53 <= 2 ^ (Zpos (digits2_pos p) - 1)) by (apply Z.pow_le_mono_r; lia). lia.
+Qed.
+
+Lemma digits2_shift d p : digits2_pos (shift_pos d p) = (digits2_pos p + d)%positive.
+Proof.
+  unfold shift_pos. induction d using Pos.peano_ind.
+  - cbn. lia.
+  - rewrite Pos.iter_succ. cbn [digits2_pos]. rewrite IHd. lia.
+Qed.
+
+Lemma shift_pos_val d p : Zpos (shift_pos d p) = Zpos p * 2 ^ Zpos d.
+Proof. rewrite shift_pos_correct. rewrite Zpower_pos_nat, Zpower_nat_Z, positive_nat_Z. lia. Qed.
+
+Lemma round_aux_exact sx mz ez : digits2_pos mz = 53%positive -> -1074 <= ez <= 971 ->
+  binary_round_aux 53 1024 sx (Zpos mz) ez loc_Exact = S754_finite sx mz ez.
+Proof.
+  intros Hd He. unfold binary_round_aux, shr_fexp. cbn [Zdigits2]. rewrite Hd.
+  assert (F : fexp 53 1024 (53 + ez) - ez = 0) by (unfold fexp, emin; lia).
+  rewrite F. cbn [shr shr_record_of_loc shr_m loc_of_shr_record round_nearest_even Zdigits2]. rewrite Hd, F.
+  cbn [shr shr_record_of_loc shr_m].
+  assert (L : Zle_bool ez (1024 - 53) = true) by (apply Zle_imp_le_bool; lia). rewrite L. reflexivity.
+Qed.
+
+Lemma binary_round_exact sx p : Zpos p < 2 ^ 53 ->
+  exists m e, binary_round 53 1024 sx p 0 = S754_finite sx m e /\ -52 <= e <= 0 /\ Zpos m = Zpos p * 2 ^ (- e) /\
+              valid_float (S754_finite sx m e) = true.
+Proof.
+  intros H. pose proof (digits2_le_53 p H) as D.
+  unfold binary_round.
+  assert (F : fexp 53 1024 (Zpos (digits2_pos p) + 0) = Zpos (digits2_pos p) - 53).
+  { unfold fexp, emin. lia. }
+  rewrite F. unfold shl_align.
+  destruct (Zpos (digits2_pos p) - 53 - 0) as [|q|q] eqn:E.
+  - assert (Hd : digits2_pos p = 53%positive) by lia.
+    rewrite (round_aux_exact sx p 0 Hd ltac:(lia)). exists p, 0. split; [reflexivity|]. split; [lia|]. split; [cbn; lia|].
+    unfold valid_float, valid_binary, bounded, canonical_mantissa. rewrite Hd. reflexivity.
+  - lia.
+  - assert (Hq : Zpos q = 53 - Zpos (digits2_pos p)) by lia.
+    assert (Hd : digits2_pos (shift_pos q p) = 53%positive) by (rewrite digits2_shift; lia).
+    rewrite (round_aux_exact sx (shift_pos q p) (Zpos (digits2_pos p) - 53) Hd ltac:(lia)).
+    exists (shift_pos q p), (Zpos (digits2_pos p) - 53). split; [reflexivity|]. split; [lia|].
+    split; [rewrite shift_pos_val; f_equal; f_equal; lia|].
+    unfold valid_float, valid_binary, bounded, canonical_mantissa. rewrite Hd.
+    assert (F2 : fexp 53 1024 (53 + (Zpos (digits2_pos p) - 53)) = Zpos (digits2_pos p) - 53) by (unfold fexp, emin; lia).
+    rewrite F2.
+    apply andb_true_iff. split; [apply Zeq_is_eq_bool; reflexivity|apply Zle_imp_le_bool; lia].
+Qed.
+
+(* every integer of magnitude below 2^53 converts to a float of exactly that value *)
+Lemma Z_to_float_exact z : Z.abs z < 2 ^ 53 ->
+  valid_float (Z_to_float z) = true /\
+  spec_int_of_float (Z_to_float z) = Some z /\
+  spec_cmp_int_float z (Z_to_float z) = Eq.
+Proof.
+  intros H. unfold Z_to_float, binary_normalize. destruct z as [|p|p].
+  - repeat split.
+  - destruct (binary_round_exact false p ltac:(lia)) as (m & e & E & He & Hm & V). rewrite E.
+    split; [exact V|]. unfold spec_int_of_float, spec_cmp_int_float, float_me, trunc_me, cmp_Z_me.
+    assert (P : 0 < 2 ^ (- e)) by (apply Z.pow_pos_nonneg; lia).
+    destruct (0 <=? e) eqn:E0.
+    + assert (e = 0) by lia. subst e. cbn [Z.opp Z.pow] in Hm. split; [f_equal; cbn; lia|]. apply Z.compare_eq_iff. cbn. lia.
+    + split; [f_equal; rewrite Hm; apply Z.quot_mul; lia|]. apply Z.compare_eq_iff. lia.
+  - destruct (binary_round_exact true p ltac:(lia)) as (m & e & E & He & Hm & V). rewrite E.
+    split; [exact V|]. unfold spec_int_of_float, spec_cmp_int_float, float_me, trunc_me, cmp_Z_me.
+    assert (P : 0 < 2 ^ (- e)) by (apply Z.pow_pos_nonneg; lia).
+    assert (N : Zneg m = Zneg p * 2 ^ (- e)) by lia.
+    destruct (0 <=? e) eqn:E0.
+    + assert (e = 0) by lia. subst e. cbn [Z.opp Z.pow] in N. split; [f_equal; cbn; lia|]. apply Z.compare_eq_iff. cbn. lia.
+    + split; [f_equal; rewrite N; apply Z.quot_mul; lia|]. apply Z.compare_eq_iff. lia.
+Qed.
+
+Lemma Int_Float_exact_lemma I (x : T I) : canonical I x = true -> Z.abs (value I x) < 2 ^ 53 ->
+  valid_float (Int_Float I x) = true /\
+  spec_int_of_float (Int_Float I x) = Some (value I x) /\
+  spec_cmp_int_float (value I x) (Int_Float I x) = Eq /\
+  finiteFloat I x = Ok (Int_Float I x).
+Proof.
+  intros Hx Hb. rewrite (Int_Float_lemma I x Hx).
+  assert (B : (1024 <? bitlen (value I x)) = false).
+  { assert (H : (bitlen (value I x) <? 1025) = true).
+    { rewrite bitlen_lt by lia. assert (2 ^ 53 <= 2 ^ (1025 - 1)) by (apply Z.pow_le_mono_r; lia). lia. }
+    lia. }
+  destruct (Z_to_float_exact (value I x) Hb) as (V & T & C).
+  assert (FF : finiteFloat I x = Ok (Z_to_float (value I x))).
+  { unfold finiteFloat. rewrite (Int_Float_lemma I x Hx), B.
+    destruct (Z_to_float (value I x)) eqn:E; try reflexivity. cbn in T. discriminate. }
+  rewrite B. repeat split; assumption.
+Qed.
